@@ -116,9 +116,9 @@ func classifyDescent(v ssa.Value, p *ssa.Parameter) descent {
 		defer delete(seen, v)
 		switch x := v.(type) {
 		case *ssa.FieldAddr:
-			return step(walk(x.X, d+1), core.FieldOf(x).Name(), x.Type().(*types.Pointer).Elem())
+			return step(walk(x.X, d+1), core.FieldName(core.FieldOf(x)), x.Type().(*types.Pointer).Elem())
 		case *ssa.Field:
-			return step(walk(x.X, d+1), core.FieldOf(x).Name(), x.Type())
+			return step(walk(x.X, d+1), core.FieldName(core.FieldOf(x)), x.Type())
 		case *ssa.IndexAddr:
 			return step(walk(x.X, d+1), "[i]", x.Type().(*types.Pointer).Elem())
 		case *ssa.Index:
@@ -162,7 +162,7 @@ func classifyDescent(v ssa.Value, p *ssa.Parameter) descent {
 					for _, rr := range *fa.Referrers() {
 						if st, ok := rr.(*ssa.Store); ok && st.Addr == ssa.Value(fa) {
 							if n, isDef := isDefinitionPtr(st.Val.Type()); isDef {
-								return descent{"cross", "literal." + core.FieldOf(fa).Name() + "(*" + n + ")"}
+								return descent{"cross", "literal." + core.FieldName(core.FieldOf(fa)) + "(*" + n + ")"}
 							}
 						}
 					}
@@ -913,7 +913,7 @@ func defaultExpansionGuard(f *ssa.Function) (string, bool) {
 		if !isLd {
 			return
 		}
-		if fld, _ := core.LoadedField(ld); fld != nil && fld.Name() == "Default" {
+		if fld, _ := core.LoadedField(ld); fld != nil && core.FieldName(fld) == "Default" {
 			// loads used as the value to link (not the nil test)
 			used := false
 			for _, r := range *ld.Referrers() {
